@@ -32,6 +32,11 @@ impl CountMinSketch {
             .duration_since(UNIX_EPOCH)
             .expect("system time before Unix epoch");
         let mut source = StdRng::seed_from_u64(timestamp.as_nanos() as u64);
+        // verification hook: let a simulator own the one wall-clock read of the crate
+        #[cfg(feature = "verif-hooks")]
+        if let Some(t) = crate::verif::sketch_clock() {
+            source = StdRng::seed_from_u64(t);
+        }
 
         let seeds: Vec<u64> = {
             (0..DEPTH).map(|_| {
@@ -80,6 +85,20 @@ impl CountMinSketch {
     /// `clear` zeroes all counters.
     pub(crate) fn clear(&mut self) {
         self.rows.iter_mut().for_each(|row| row.clear())
+    }
+}
+
+// ---------------------------------------------------------------------------
+// Verification hooks (cargo feature `verif-hooks`, off by default).
+// ---------------------------------------------------------------------------
+#[cfg(feature = "verif-hooks")]
+impl CountMinSketch {
+    pub(crate) fn verif_state(&self) -> (Vec<Vec<u8>>, Vec<u64>, u64) {
+        (
+            self.rows.iter().map(|r| r.verif_bytes()).collect(),
+            self.seeds.to_vec(),
+            self.mask,
+        )
     }
 }
 
